@@ -118,7 +118,7 @@ def glwe_instances():
                 ar = (max(enc, dec) + slack + 7) // 8
                 core = (n, b, k, ps, bo, ko, rank, variant) in ((2, 12, 12, 1, 12, 12, 1, 0), (2, 17, 35, 3, 17, 35, 2, 0), (2, 5, 15, 3, 12, 12, 1, 0), (8, 12, 13, 2, 12, 13, 1, 0))
                 out.append(Instance(crate="hk_core", family="glwe.encrypt_decrypt", name=f"c01_glwe_n{n}_b{b}_k{k}_ps{ps}_o{bo}_{ko}_r{rank}_v{variant}",
-                                    call=f"crate::c01_glwe::glwe_roundtrip::<{n}, {b}, {k}, {ps}, {bo}, {ko}, {slack}, {ar}, {bool_rs(symscr)}>({rank}, {sp})", unwind=max(3 * size, 2 * n * (rank + 1), 3 * -(-ko // bo)) + 10,
+                                    call=f"crate::c01_glwe::glwe_roundtrip::<{n}, {b}, {k}, {ps}, {bo}, {ko}, {slack}, {ar}, {bool_rs(symscr)}>({rank}, {sp})", unwind=max(3 * size, n * (rank + 1) * size, 3 * -(-ko // bo), n * -(-ko // bo)) + 10,
                                     params={"n": n, "base2k": b, "k": k, "rank": rank, "pt_limbs": ps, "ct_limbs": size, "out_base2k": bo, "out_k": ko, "secret": sec, "scratch_slack_bytes": slack, "scratch_contents": "symbolic" if symscr else "fixed pattern 0x5a"},
                                     symbolic=["message digits (normalised, incl. extremes)", "mask words", "error |e|<=bound*scale", "prior ciphertext content"] + (["all scratch bytes"] if symscr else []), stubs=CORE_STUBS,
                                     functions=["poulpy-core/src/encryption/glwe.rs::glwe_encrypt_sk / glwe_encrypt_sk_internal", "poulpy-core/src/decryption/glwe.rs::glwe_decrypt_default",
@@ -139,7 +139,7 @@ def glwe_decrypt_instances():
                 ar = (dec + 128 + 64 * 3 + 7) // 8
                 core = (b, k, bo, ko, rank, variant) in ((17, 35, 17, 35, 2, 0), (8, 24, 17, 17, 1, 0), (12, 24, 5, 20, 1, 2), (17, 35, 17, 17, 3, 0))
                 out.append(Instance(crate="hk_core", family="glwe.decrypt_vs_phase_oracle", name=f"c01_glwe_dec_b{b}_k{k}_o{bo}_{ko}_r{rank}_v{variant}",
-                                    call=f"crate::c01_glwe::glwe_decrypt_oracle::<{b}, {k}, {bo}, {ko}, {ar}>({rank}, {sp})", unwind=max(3 * size, 2 * 2 * (rank + 1), 3 * -(-ko // bo)) + 10,
+                                    call=f"crate::c01_glwe::glwe_decrypt_oracle::<{b}, {k}, {bo}, {ko}, {ar}>({rank}, {sp})", unwind=max(3 * size, 2 * (rank + 1) * size, 3 * -(-ko // bo), 2 * -(-ko // bo)) + 10,
                                     params={"n": 2, "base2k": b, "k": k, "rank": rank, "ct_limbs": size, "out_base2k": bo, "out_k": ko, "secret": sec},
                                     symbolic=["every ciphertext limb (normalised digits)", "prior plaintext content"], stubs=[CORE_STUBS[-1], CORE_STUBS[-2]],
                                     functions=["poulpy-core/src/decryption/glwe.rs::glwe_decrypt_default", "poulpy-core/src/layouts/prepared/glwe_secret.rs::glwe_secret_prepare"] + PROBE_FUNCS,
